@@ -539,7 +539,7 @@ func (i *interpreter) equalsV(t types.Type, x, y value) value {
 		if x.t == nil {
 			return true
 		}
-		if !types.Comparable(x.t) {
+		if x.t != errorType && x.t != rtypeType && !types.Comparable(x.t) {
 			panic(runtimeError("comparing uncomparable type " + x.t.String()))
 		}
 		return i.equalsV(x.t, x.v, y.v)
